@@ -25,16 +25,21 @@ TYPES = {
     "RemoteNameBuf": "lib/src/ref_name.rs",
     "GitRefNameBuf": "lib/src/ref_name.rs",
     "WorkspaceNameBuf": "lib/src/ref_name.rs",
+    "Commit": "lib/src/backend.rs",
+    "Signature": "lib/src/backend.rs",
+    "SecureSig": "lib/src/backend.rs",
 }
 # types declared through `id_type!(… pub Name { hex() })`
 ID_TYPES = {
     "CommitId": "lib/src/backend.rs",
+    "ChangeId": "lib/src/backend.rs",
+    "TreeId": "lib/src/backend.rs",
     "ViewId": "lib/src/op_store.rs",
     "OperationId": "lib/src/op_store.rs",
 }
 # generated definitions (fully expanded)
 EMIT = ["View", "Operation", "OperationMetadata", "RemoteView", "RemoteRef", "RemoteRefState", "RefTarget",
-        "TimestampRange", "Timestamp", "CommitId", "ViewId", "OperationId"]
+        "TimestampRange", "Timestamp", "CommitId", "ViewId", "OperationId", "Commit", "Signature"]
 
 CONTENT_HASH = "lib/src/content_hash.rs"
 # Rust type constructor -> (arity, Desc builder, regex that must still be present in content_hash.rs)
